@@ -1,23 +1,23 @@
-"""Per-property configuration for ./check (what to build, which harness binary, what is trusted)."""
+"""Per-property configuration for ./check, assembled from checklib/props/*.py (one file per cluster).
 
-TEXT_TB = ["correspondence run (LineIndex vs Text model) for the tie; rowan TextSize = u32 byte offsets"]
+Each cluster file defines:
+  PROPS = { "Cxx": {...}, ... }      (required keys: harness, level_text, level_note)
+  HOOK_COMMITS = ["<sha> <subject>", ...]      (optional; guarded hook commits made in /repo)
+  NOT_CLAIMED_REASON = {"Cxx": "reason"}       (optional)
+Optional keys per property: lean_modules (default ["EmmyVerif.Props.Cxx"]), gen (list of python module
+names under checklib/gen exposing generate(root, repo, log)), cargo_args, harness_args, timeout,
+trusted_base, assumptions, level (default "proof"), technique, design_ref, pre (list of python
+module names under checklib/pre exposing run(root, repo, tier, seed, log) -> dict, executed before the
+harness, e.g. to build repo binaries).
+"""
+import glob, os, importlib.util
 
-HOOK_COMMITS = []
-NOT_CLAIMED_REASON = {}
-
-PROPS = {
-    "C22": {
-        "harness": "vh-parser",
-        "level_text": "Kernel-checked theorems (roundtrip at every char boundary, missing line -> none, clamp into the line's reachable part, result <= |text|) for all texts and positions about the Text model; the model is compared with LineIndex on exhaustive small texts + seeded random texts every run, and the property's oracle is evaluated on the implementation independently.",
-        "level_note": "Trusted: Lean kernel (axioms propext, Quot.sound), the harness/serialiser, the correspondence run as the tie (differential, not a proof about the Rust). Modelled: LineIndex::{parse,get_line_col,get_offset,get_line_offset}.",
-        "trusted_base": TEXT_TB,
-        "assumptions": ["texts shorter than 2^32 bytes (TextSize is u32)"],
-    },
-    "C23": {
-        "harness": "vh-parser",
-        "level_text": "Kernel-checked theorems: lines are split exactly at \\n, \\r\\n and lone \\r (join/well-formedness/line shape), and the column of every boundary is the UTF-16 length of its line prefix; same model and tie as C22, with an independent UTF-16/line-split oracle on the implementation.",
-        "level_note": "Trusted: Lean kernel, harness, correspondence run. Not modelled: capability negotiation (the server advertises no positionEncoding; checked by a source grep in the harness notes).",
-        "trusted_base": TEXT_TB,
-        "assumptions": ["texts shorter than 2^32 bytes (TextSize is u32)"],
-    },
-}
+PROPS, HOOK_COMMITS, NOT_CLAIMED_REASON = {}, [], {}
+_here = os.path.dirname(os.path.abspath(__file__))
+for _p in sorted(glob.glob(os.path.join(_here, "props", "*.py"))):
+    _spec = importlib.util.spec_from_file_location("props_" + os.path.basename(_p)[:-3], _p)
+    _m = importlib.util.module_from_spec(_spec)
+    _spec.loader.exec_module(_m)
+    PROPS.update(getattr(_m, "PROPS", {}))
+    HOOK_COMMITS += getattr(_m, "HOOK_COMMITS", [])
+    NOT_CLAIMED_REASON.update(getattr(_m, "NOT_CLAIMED_REASON", {}))
